@@ -141,7 +141,6 @@ func RunIface(ic *IfaceCase, verbose bool) (out *IfaceOutcome) {
 		}
 		var errA error
 		if d := safely("Finalise", func() { errA = aw.DB.Finalise(true) }); d != nil {
-			d.Context = "Finalise"
 			setDiv(step, d)
 			return false
 		}
@@ -220,6 +219,9 @@ func RunIface(ic *IfaceCase, verbose bool) (out *IfaceOutcome) {
 		skip := false
 		if op.Op == "EndTx" && ic.BlockPerTx {
 			op.Op = "EndBlock"
+		}
+		if verbose && (op.Op == "EndTx" || op.Op == "EndBlock") {
+			out.Trace = append(out.Trace, fmt.Sprintf("%3d %-24s (Finalise(true) on both sides; adapter tx session commit%s)", i, op.Op, map[bool]string{true: "; Reset + State.Commit + new block", false: ""}[op.Op == "EndBlock"]))
 		}
 		if op.Op == "EndTx" {
 			if !endTx(i, false) {
@@ -386,10 +388,6 @@ func RunIface(ic *IfaceCase, verbose bool) (out *IfaceOutcome) {
 			out.Trace = append(out.Trace, fmt.Sprintf("%3d %-24s addr=%s slot=%d v=%q n=%d  adapter=%q reference=%q", i, op.Op, a.Hex(), op.K%4, op.V, op.N, retA, retR))
 		}
 		if crash != nil {
-			crash.Context = op.Op
-			if h.RevertedThisTx {
-				crash.Context = "after-revert"
-			}
 			setDiv(i, crash)
 			return out
 		}
@@ -427,6 +425,9 @@ func RunIface(ic *IfaceCase, verbose bool) (out *IfaceOutcome) {
 			switch op.Op {
 			case "GetState", "GetCommittedState":
 				trait = storageTrait(hexWord(retA), hexWord(retR))
+				if strings.Contains(trait, "tombstone-bytes") {
+					ctx = "slot-cleared-same-block"
+				}
 			case "Exist", "Empty", "HasSuicided", "Suicide", "AddressInAccessList":
 				trait = "adapter-" + retA + "-ref-" + retR
 			case "GetBalance", "SubBalance":
